@@ -3,6 +3,7 @@
   Full strength does NOT hold on the unchanged code (finding F2): see `…_strands_gas`.
 -/
 import Axelar.Proofs.Balances
+import Axelar.Proofs.ItsLedger
 namespace Axelar.Props.C17
 open Axelar Axelar.ItsW Axelar.Its Codec
 
@@ -140,6 +141,88 @@ theorem metadata_callback_service_keeps_nothing (C : Crypto) (cx : ICtx) (tok : 
   rcases hm with hm | hm
   · rw [hm cx.self]; unfold World.movedEgld; simp [Ne.symm hc]; omega
   · rw [hm cx.self]; unfold World.movedEgld; simp [Ne.symm hg]; omega
+
+/-- the refund as a ledger equation: exactly `gas` EGLD from the service to the caller -/
+theorem refund_led (cx : ICtx) (caller : Bytes) (gas : Nat) (t t' : Tx)
+    (h : refundGas cx caller gas t = some ((), t')) :
+    World.Led t.w t'.w (World.pt cx.self none gas) (World.pt caller none gas) := by
+  rcases refund_exact cx caller gas t t' h with ⟨h0, rfl⟩ | ⟨_, hs, _, _⟩
+  · subst h0
+    exact (World.Led.refl _).conv (by intro x k; simp [World.pt, World.nil])
+  · exact World.led_send _ _ _ _ _ _ hs
+
+/-- **A successful remote-deployment callback moves exactly the gas value out of the service**:
+    to the original caller (error / non-fungible reply) or to the gas service (fungible reply,
+    together with the gateway message of the deployment) — for every account and asset; nothing
+    else moves.  (`destChain ≠ []`: a remote deployment names a destination chain.) -/
+theorem remote_deploy_callback_moves_exactly_the_gas_value (C : Crypto) (cx : ICtx)
+    (salt chain sym dm : Bytes) (gas : Nat) (caller : Bytes) (ok : Bool) (vals : List Bytes) (t t' : Tx)
+    (hkgs : t.w.kind t.w.its.gasService = some .gasService) (hkgw : t.w.kind t.w.its.gateway = some .gateway)
+    (hchain : chain ≠ [])
+    (h : deployRemoteTokenCallback C cx salt chain sym dm gas caller ok vals t = some ((), t')) :
+    ∃ target, (target = caller ∨ target = t.w.its.gasService) ∧
+      World.Led t.w t'.w (World.pt cx.self none gas) (World.pt target none gas) := by
+  by_cases hr : ok = false ∨ parseTokenProperties vals = some none
+  · rw [refund_on_error_or_non_fungible_deploy C cx salt chain sym dm gas caller ok vals t hr] at h
+    exact ⟨caller, Or.inl rfl, refund_led cx caller gas t t' h⟩
+  · have hok : ok = true := by cases ok <;> simp_all
+    subst hok
+    simp only [deployRemoteTokenCallback, Bool.not_true, Bool.false_eq_true, if_false] at h
+    cases hp : parseTokenProperties vals with
+    | none => simp [hp] at h
+    | some o =>
+      cases o with
+      | none => exact absurd (Or.inr hp) hr
+      | some nd =>
+        obtain ⟨name, dec⟩ := nd
+        simp only [hp, run_bind] at h
+        cases hd : deployInterchainTokenRaw C cx salt chain name sym dec dm gas t with
+        | none => simp [hd] at h
+        | some r =>
+          obtain ⟨tid, t1⟩ := r
+          simp only [hd, run_pure, Option.some.injEq, Prod.mk.injEq, true_and] at h
+          subst h
+          refine ⟨t.w.its.gasService, Or.inr rfl, ?_⟩
+          -- the remote branch: pause check, event, own-chain check, then the routed message with the gas
+          simp only [deployInterchainTokenRaw, run_bind, requireNotPaused_run] at hd
+          cases hpz : t.w.its.paused
+          · have hne : chain.isEmpty = false := by cases chain <;> simp_all
+            simp only [hpz, Bool.false_eq_true, if_false, run_emit, hne, run_bind, run_getI, run_require] at hd
+            by_cases hown : (t.w.its.chainName != chain) = true
+            · simp only [hown, if_true, deployRemoteBase, run_bind, run_require] at hd
+              by_cases hn1 : (!name.isEmpty) = true
+              · simp only [hn1, if_true] at hd
+                by_cases hn2 : (!sym.isEmpty) = true
+                · simp only [hn2, if_true, deployedTokenManager_run] at hd
+                  by_cases hn3 : (t.w.its.tmAddress (tokenIdRaw C salt)).isEmpty = true
+                  · simp [hn3] at hd
+                  · simp only [hn3, Bool.false_eq_true, if_false] at hd
+                    cases he : Abi.Deploy.encode ⟨Generated.MESSAGE_TYPE_DEPLOY_INTERCHAIN_TOKEN,
+                        tokenIdRaw C salt, name, sym, UInt8.ofNat dec, dm⟩ with
+                    | error e => simp [he] at hd
+                    | ok payload =>
+                      simp only [he, run_bind] at hd
+                      cases hrm : routeMessage C cx chain payload none gas
+                          { t with evs := t.evs ++ [⟨cx.self, "interchain_token_id_claimed_event", [tokenIdRaw C salt], [salt]⟩] } with
+                      | none => simp [hrm] at hd
+                      | some q =>
+                        obtain ⟨u, t2⟩ := q
+                        simp only [hrm, run_emit, run_pure, Option.some.injEq, Prod.mk.injEq] at hd
+                        obtain ⟨_, rfl⟩ := hd
+                        simp only [routeMessage, run_bind, run_getI] at hrm
+                        cases hg : getCallParams t.w.its chain payload with
+                        | none => simp [hg] at hrm
+                        | some v =>
+                          obtain ⟨dc, da, p⟩ := v
+                          simp only [hg] at hrm
+                          cases u
+                          exact (callContract_led C cx dc da p none gas
+                            { t with evs := t.evs ++ [⟨cx.self, "interchain_token_id_claimed_event", [tokenIdRaw C salt], [salt]⟩] }
+                            t2 hkgs hkgw hrm).1
+                · simp [hn2] at hd
+              · simp [hn1] at hd
+            · simp [hown] at hd
+          · simp [hpz] at hd
 
 /-! ### Non-vacuity (tests) -/
 example : asciiToU8 [49, 56] 0 = some 18 ∧ asciiToU8 [50, 53, 54] 0 = none := by decide
